@@ -578,6 +578,43 @@ def r9(F, R):
 
 
 
+def r11(F, R):
+    """The centre of the diagonal transformation is computed from the scales of the same update."""
+    from . import eff as E
+    R.rule("C08-R11", "in every DiagMassMatrix update that writes both the scales and the mean, each call that reads self.stds / self.inv_stds (the squared scale "
+                      "entering `mean = mean(draw) + sigma^2 * mean(grad)`) is dominated by the call that writes them: the mean is never built from the "
+                      "scales of the previous transformation")
+    n = 0
+    for b in sorted(F.bodies.values(), key=lambda x: x.path):
+        if b.kind == "closure" or not path_ends(b.parent.get("self_adt") or "", "diagonal::DiagMassMatrix") or b.parent.get("trait"):
+            continue
+        wr, rd, wmean = [], [], False
+        for bb, t in b.calls():
+            for (mode, pl, leaf, _sc, _ai) in E.call_effects(F, b, t):
+                if pl is None or pl[0] != ("arg", 1) or not pl[1]:
+                    continue
+                f = pl[1][-1]
+                if mode == "W" and f in ("stds", "inv_stds"):
+                    wr.append((bb, t))
+                if mode == "R" and f in ("stds", "inv_stds") and leaf not in ("array_sum_ln",):
+                    rd.append((bb, t, f))
+                if mode == "W" and f == "mean":
+                    wmean = True
+        if not wr or not wmean:
+            continue
+        n += 1
+        key = "%s:mean-after-scales" % b.path
+        site = "%s @%s" % (b.path, b.loc())
+        early = [(bb, t, f) for (bb, t, f) in rd if not any(b.dominates(wb, bb) and wb != bb for wb, _wt in wr)]
+        if early:
+            R.bad("C08-R11", key, "%s @%s" % (b.path, loc(early[0][1]["span"])), "%s reads self.%s before the scales of this update are written: the mean of the new "
+                  "transformation is computed from the previous scales" % (early[0][1]["callee"].get("name"), early[0][2]))
+        else:
+            R.ok("C08-R11", key, site, "%d reads of the scales, all after they are written" % len(rd))
+    R.floor("C08-R11", 2)
+
+
+
 def run(F, R, config=None):
     r1_r3(F, R)
     r7(F, R)
@@ -588,6 +625,7 @@ def run(F, R, config=None):
     r6(F, R)
     r8(F, R)
     r9(F, R)
+    r11(F, R)
     from . import c02
     K.borrow_rule(R, lambda sub: c02.r10(F, sub), "C08-R10", "no logarithm of a product reduction in the transformation / math code: finite positive scales and "
                   "eigenvalues give a finite log-determinant (C02-R10 analysis)", only_rules={"C02-R10"})
